@@ -201,7 +201,7 @@ func genLooseTicks(r *proto.Rand) string {
 	}
 	link := "[" + pick(r, []string{"", "x", "t t"}) + "](" + sd(r) + ")"
 	inner := pick(r, []string{"", " ", "a", "a ", "\\", "[", link + " "}) + ticksN(m) + pick(r, []string{"", " ", "b", link, " " + link, "\\" + link, "[x", "](" + sd(r) + ")"})
-	s := ticksN(n) + inner + pick(r, []string{ticksN(n), ticksN(n), "", ticksN(n) + " " + link, ticksN(m)})
+	s := ticksN(n) + inner + pick(r, []string{ticksN(n), ticksN(n), "", ticksN(n) + " " + link, ticksN(m), "</a>" + link + ticksN(n), "<!>" + link, "<br>" + link + ticksN(n), " <b>" + link})
 	switch r.Intn(5) {
 	case 0:
 		s = filler(r) + s
